@@ -51,7 +51,7 @@ ENGINE_STREAMS = {
     "C03": [("C01", 60, 1500, 40), ("faults", 40, 1000, 40)],
     "C05": [("C01", 50, 1500, 40), ("faults", 50, 1500, 40)],
     "C06": [("C01", 60, 1500, 40), ("churn", 40, 1000, 60)],
-    "C07": [("faults", 100, 3000, 40)],
+    "C07": [("faults", 60, 2000, 40), ("binds", 40, 1000, 40)],
     "C08": [("binds", 100, 3000, 40)],
     "C10": [("C01", 50, 1500, 40), ("faults", 50, 1500, 40)],
     "C11": [("cutoffs", 100, 3000, 40)],
